@@ -373,4 +373,10 @@ def run(ctx, prog):
                        'for two racing snapshots), and the stale branch must unlink exactly the path this call saved')
     snapshot_file_identity(ctx, prog, 'C09.R7', cs)
     ctx.floor('C09.R6', 'log appends inside the write-gate section of the mutators', n_sec, 5, 'insert ×2 (entry, compensating delete), delete, update_metadata, batch_delete')
+    # ------------------------------------------------------------------ R8 what compaction deletes is in the snapshot
+    ctx.rule('C09.R8', 'a snapshot taken while writers run (its (seq, store) pair is read before it is stamped and before it reaches the MANIFEST section) may delete a '
+                       'segment only when every entry in it is in the snapshot: for numbered entries that is decided by the sequence comparison alone — the timestamp '
+                       'comparison (whole seconds, stamped after the capture) may decide only for legacy entries without a number (same analysis as C02.R2)')
+    from rules import C02 as _C02
+    _C02.compaction_timestamp_legacy_only(ctx, prog, 'C09.R8')
     ctx.stat('functions_analysed', len(set(i['key'].split(' | ')[1] for i in ctx.instances)))
